@@ -246,9 +246,10 @@ class Design:
 
 TYPE_POOL = [('b', 4), ('b', 8), ('b', 8), ('b', 16), ('b', 16), ('s', 'Pt'), ('s', 'Outer'), ('s', 'Mat'), ('s', 'Sq')]
 
-def gen_hierarchy(rng, name, levels=None, rich=True):
+def gen_hierarchy(rng, name, levels=None, rich=True, deep=False):
+  """deep: three levels, at least two children of the top with at least one grandchild each (cousins exist)"""
   d = Design(name)
-  levels = levels or rng.choice([1, 2, 2, 3])
+  levels = 3 if deep else (levels or rng.choice([1, 2, 2, 3]))
   top = d.add_inst(())
   def populate(i, depth):
     nin, nout, nw = rng.randrange(1, 4), rng.randrange(1, 3), rng.randrange(1, 4)
@@ -265,7 +266,9 @@ def gen_hierarchy(rng, name, levels=None, rich=True):
       for idx in itertools.product(*[range(n) for n in dims]):
         i.sigs.append(Sig(i.path, 'l0' + ''.join(f'[{a}]' for a in idx), kind, T, lst=('l0', dims)))
     if depth < levels:
-      for k in range(rng.randrange(1, 4) if depth == 1 else rng.randrange(0, 3)):
+      nk = rng.randrange(1, 4) if depth == 1 else rng.randrange(0, 3)
+      if deep: nk = rng.randrange(2, 4) if depth == 1 else rng.randrange(1, 3)
+      for k in range(nk):
         c = d.add_inst(i.path + (f'c{k}' if depth == 1 else f'g{k}',), i)
         populate(c, depth + 1)
   populate(top, 1)
